@@ -143,7 +143,7 @@ replay_map!(BTreeMap, BTreeMap, BTreeSet, btree_map, [Ord]);
 replay_map!(HashMap, HashMap, HashSet, hash_map, [core::hash::Hash + Eq]);
 
 macro_rules! replay_set {
-    ($Set:ident, $StdSet:ident, $modname:ident, [$($kb:tt)*]) => {
+    ($Set:ident, $StdSet:ident, $modname:ident, [$($kb:tt)*] $(, $extra:ty)*) => {
         pub struct $Set<K> {
             inner: UnsafeCell<sc::$StdSet<K>>,
             touched: UnsafeCell<sc::$StdSet<K>>,
@@ -199,6 +199,11 @@ macro_rules! replay_set {
             pub fn is_empty(&self) -> bool { self.no_havoc(); self.m().is_empty() }
             pub fn clear(&mut self) { self.havoc = false; self.m().clear(); self.t().clear(); }
             pub fn retain<F: FnMut(&K) -> bool>(&mut self, f: F) { self.no_havoc(); self.m().retain(f) }
+            pub fn difference<'a>(&'a self, other: &'a $Set<K>) -> sc::$modname::Difference<'a, K $(, $extra)*> {
+                self.no_havoc();
+                other.no_havoc();
+                self.m().difference(other.m())
+            }
         }
         impl<K: $($kb)* + Clone> IntoIterator for $Set<K> {
             type Item = K;
@@ -220,4 +225,4 @@ macro_rules! replay_set {
     };
 }
 replay_set!(BTreeSet, BTreeSet, btree_set, [Ord]);
-replay_set!(HashSet, HashSet, hash_set, [core::hash::Hash + Eq]);
+replay_set!(HashSet, HashSet, hash_set, [core::hash::Hash + Eq], std::collections::hash_map::RandomState);
